@@ -20,6 +20,10 @@ RULE = ("case = one history on a fresh chain through BeginBlock/DeliverTx/EndBlo
         "conversions afterwards, 7% of the random ops are create / metadata / fund / convert / sendToEvm under another "
         "spelling of a mapped or known denom; the registry is read through FunTokens.Indexes.BankDenom / ERC20Addr (under "
         "every string spelled so far) and after every CreateFunToken both indexes are queried under all spellings, "
+        "bridge messages reached THROUGH THE WASM PRECOMPILE: in 45% of the cases the forwarder owns a reflect.wasm contract "
+        "(account 7, funded with the mapped coins) and calls Wasm.execute on it so that it re-dispatches a Stargate "
+        "MsgConvertCoinToEvm / MsgCreateFunToken (refused inside the EVM tx) or a bank MsgSend of a mapped denom (incl. to "
+        "the escrow) in the middle of the EVM tx, in all five frames and paired with sendToBank / sendToEvm in one tx, "
         "1-3 embedded ERC20s (TestERC20 / TestERC20TransferWithFee / TestERC20MaliciousTransfer), then 10-24 ops drawn from "
         "MsgCreateFunToken (coin / erc20, incl. duplicates and nonexistent contracts), MsgConvertCoinToEvm (both births), "
         "precompile sendToBank / sendToEvm / bankMsgSend (direct from an EOA or through a forwarder contract: plain, "
@@ -46,7 +50,8 @@ ASSUMPTIONS = [
     "transaction gas fees are not modelled: unibi balances of the four gas-paying accounts are not compared, the unibi bank "
     "supply is compared relative to the part of genesis outside the modelled accounts; the CreateFunToken fee (burned) IS modelled",
 ]
-TRUSTED = ["hand-assembled forwarder contract (262 bytes) and returns-false ERC20 (182 bytes), listings in coq/C06/README.md"]
+TRUSTED = ["hand-assembled forwarder contract (262 bytes) and returns-false ERC20 (182 bytes), listings in coq/C06/README.md",
+           "reflect.wasm of the repository (x/devgas/v1/keeper/testdata) as the CosmWasm contract that re-dispatches Stargate messages"]
 HARNESS_TIMEOUT = {"quick": 600, "thorough": 7200}
 
 CONV = ("convert", "send_to_bank", "send_to_evm")
@@ -401,7 +406,11 @@ MANIFEST = {
                  "choice of which value (as given / rewritten) the index guard, the metadata lookup and the insert of "
                  "createFunTokenFromCoin use, the property holds for all histories whenever the guard looks at the value "
                  "that is inserted; C06_rewrite_after_guard_refuted: it fails when a voucher hash is case-normalised after "
-                 "the guard. The model is tied to /repo on every "
+                 "the guard. Messages of the EVM module dispatched by a CosmWasm contract through the Wasm precompile in the "
+                 "middle of an EVM tx (WasmConvert / WasmCreateCoin / WasmCreateErc20) are operations of the histories: "
+                 "C06_wasm_dispatch_refused, C06_guarded_reentry_safe (any guard configuration that marks the precompile "
+                 "context and refuses on it), C06_unguarded_reentry_refuted (without the refusal a nested conversion in a "
+                 "reverted frame leaves totalSupply 1100 > escrow 1000). The model is tied to /repo on every "
                  "run by executing it against the real keepers through BeginBlock/DeliverTx/EndBlock on generated "
                  "histories (embedded TestERC20, TestERC20TransferWithFee, TestERC20MaliciousTransfer, a returns-false "
                  "ERC20, a forwarder contract producing reverted sub-frames) and comparing after EVERY transaction the "
@@ -424,7 +433,8 @@ MANIFEST = {
                    "reverts, top-level reverts, swallowed failures and out-of-gas. Generated facts (go/ast extractor harness/gen/c06): the "
                    "ordered ledger operations of the seven bridge paths with parties and requested-vs-measured amounts, the shape "
                    "of ERC20().Transfer, the CreateFunToken guards by index, which VALUE of the denom string (as given / rewritten) the guard, "
-                   "the metadata lookup and the insert of createFunTokenFromCoin use, the StateDB syncs of every bank wrapper; obligations "
+                   "the metadata lookup and the insert of createFunTokenFromCoin use, the re-entry guards (precompile context marked; ConvertCoinToEvm / "
+                   "CreateFunToken refuse on it before touching anything), the StateDB syncs of every bank wrapper; obligations "
                    "in Gen/C06Oblig.v equate them with the step lists the model's operations are proved to be. Trusted: Coq kernel + vm_compute, the Go driver and its canonicalisation, two "
                    "hand-assembled contracts (forwarder, returns-false ERC20; listings in coq/C06/README.md), check.py."),
     "technique": ("Coq proof: inductive invariant over operation histories, parametric in ERC20 transfer behaviour; "
